@@ -592,8 +592,23 @@ class _ChrModel:
         return S.CharStr([ord(chr(x))])
 
 
-_RTF_REGEX_GLOBALS = ("_RE_UNICODE", "_RE_HEX_ESCAPE", "_RE_CONTROL_WORD", "_RE_MULTI_SPACE",
-                      "_RE_MULTI_NEWLINE", "_RE_CONTROL_SEQ", "_RE_INFO", "_RE_INFO_ALT")
+_RTF_LIFTED = ("_strip_rtf_full_with_pages", "_remove_ignorable_groups", "_is_skip_destination",
+               "_strip_rtf_simple", "_extract_metadata", "_decode_hex_escape", "_detect_code_page")
+
+
+def _rtf_regex_globals(m):
+    """names of the module's compiled patterns that the lifted methods refer to (from their own code
+    objects, so a pattern added to / removed from the module is followed without editing this file)"""
+    names = set()
+
+    def walk(code):
+        names.update(code.co_names)
+        for c in code.co_consts:
+            if isinstance(c, types.CodeType):
+                walk(c)
+    for name in _RTF_LIFTED:
+        walk(getattr(m._RtfParser, name).__code__)
+    return sorted(n for n in names if isinstance(getattr(m, n, None), re.Pattern))
 
 
 def _combine_surrogates_model(text):
@@ -649,48 +664,142 @@ class _Late:
         return self.target(*a, **k)
 
 
+class _CodePageByte:
+    """``bytes([value])`` as seen from the lifted _decode_hex_escape when the byte is symbolic: its
+    decode(codec) is the codec's own single-byte table, read off the real codec at run time
+    (bytes([b]).decode(codec) for b in 0..255), as an if-chain on the symbolic value; a byte the codec
+    does not decode on its own raises UnicodeDecodeError like the real call (one solver fork)"""
+    _tables = {}
+
+    def __init__(self, value):
+        self.value = value
+
+    @classmethod
+    def table(cls, codec):
+        if codec not in cls._tables:
+            tab = []
+            for b in range(256):
+                try:
+                    ch = bytes([b]).decode(codec)
+                except UnicodeDecodeError:
+                    tab.append(None)
+                    continue
+                if len(ch) != 1:
+                    raise S.Unsupported(f"codec {codec}: byte {b:#x} decodes to {len(ch)} characters")
+                tab.append(ord(ch))
+            cls._tables[codec] = tab
+        return cls._tables[codec]
+
+    def decode(self, codec="utf-8", errors="strict"):
+        if errors != "strict":
+            raise S.Unsupported("bytes.decode of a symbolic byte with an error handler")
+        tab = self.table(str(codec))
+        v = self.value.z
+        undefined = [b for b, cp in enumerate(tab) if cp is None]
+        if undefined and S.cur().decide(z3.Or(*[v == b for b in undefined])):
+            raise UnicodeDecodeError(str(codec), b"\x00", 0, 1, "symbolic byte outside the code page")
+        return S.CharStr([S.SymInt(self.chain(tab, v))])
+
+    @staticmethod
+    def chain(tab, v):
+        """the code point of byte v (a z3 Int term) per the table, for the bytes the codec defines"""
+        term = v
+        for b, cp in enumerate(tab):
+            if cp is not None and cp != b:
+                term = z3.If(v == b, z3.IntVal(cp), term)
+        return term
+
+
+def _rtf_bytes(x=b"", *a):
+    """the name ``bytes`` in the lifted RTF methods: bytes([symbolic int]) -> _CodePageByte, with the
+    builtin's range check; everything else is the builtin"""
+    if isinstance(x, list) and len(x) == 1 and isinstance(x[0], S.SymInt) and not a:
+        v = S._const_or_self(x[0])
+        if isinstance(v, int):
+            return bytes([v])
+        if not S.cur().decide(z3.And(v.z >= 0, v.z < 256)):
+            raise ValueError("bytes must be in range(0, 256)")
+        return _CodePageByte(v)
+    return bytes(x, *a)
+
+
+def _code_page_selftest(m, lifted, codecs_):
+    """translator validation: the lifted _decode_hex_escape (over _rtf_bytes / _CodePageByte with the
+    if-chain evaluated by z3 on a pinned value) == the real method, for all 256 bytes of each codec"""
+    n = 0
+    for codec in codecs_:
+        real = m._RtfParser(b"")
+        real._codec = codec
+        tab = _CodePageByte.table(codec)
+        for b in range(256):
+            want = real._decode_hex_escape("%02x" % b)
+            cp = tab[b] if tab[b] is not None else b
+            v = z3.Int("b")
+            got = z3.simplify(z3.substitute(_CodePageByte.chain(tab, v), (v, z3.IntVal(b)))).as_long()
+            if not (want == chr(cp) == chr(got if tab[b] is not None else b)):
+                raise AssertionError(f"code page model differs for {codec} byte {b:#x}: {want!r} vs {cp:#x}/{got:#x}")
+            p = object.__new__(m._RtfParser)
+            p._codec = codec
+            if str(lifted(p, S.CharStr("%02X" % b))) != want:
+                raise AssertionError(f"lifted _decode_hex_escape differs for {codec} byte {b:#x}")
+            n += 1
+    return n
+
+
 _RTF_LIFT = {}
 
 
 def _rtf_lifted_parser(ctx, chr_model):
-    """an _RtfParser whose text-stripping methods are the module's own source lifted to symbolic
-    strings; regex objects -> SymRegex over the same pattern text (lifted once per process)"""
+    """an _RtfParser whose text-stripping methods, information-group reader, \\'hh decoder and code page
+    detection are the module's own source lifted to symbolic strings; regex objects -> SymRegex over
+    the same pattern text (lifted once per process)"""
+    import codecs as _codecs
     from vf import lift
     m = _rtf()
-    L = _RTF_LIFT
-    if not L:
-        L["chr"] = _Late()
-        ns = dict(int=S.IntShadow, chr=L["chr"], re=SymReModule, len=len)
-        for g in _RTF_REGEX_GLOBALS:
+    if not _RTF_LIFT:
+        L = {"chr": _Late()}
+        regex_globals = _rtf_regex_globals(m)
+        codecs_ns = types.SimpleNamespace(
+            lookup=lambda name: _codecs.lookup(name.concrete() if isinstance(name, S.CharStr) else name))
+        ns = dict(int=S.IntShadow, chr=L["chr"], re=SymReModule, len=len, bytes=_rtf_bytes, codecs=codecs_ns)
+        for g in regex_globals:
             ns[g] = SymRegex(getattr(m, g))
         if hasattr(m, "_combine_surrogates"):
             _combine_selftest(m._combine_surrogates)
             L["combine"] = _Late()
             ns["_combine_surrogates"] = L["combine"]
-        for name in ("_strip_rtf_full_with_pages", "_remove_ignorable_groups", "_is_skip_destination",
-                     "_strip_rtf_simple", "_extract_metadata"):
+        for name in _RTF_LIFTED:
             L[name] = lift.lift(getattr(m._RtfParser, name), **ns)
-        p0 = object.__new__(m._RtfParser)
-        m._RtfParser.__init__(p0, b"")
+        p0 = m._RtfParser(b"")
+        L["codec"] = p0._codec
         L["special"] = [(SymRegex(rx), S.CharStr(ch)) for rx, ch in p0._special_char_patterns]
-        _regex_runtime_selftest([getattr(m, g) for g in _RTF_REGEX_GLOBALS] +
+        value = r"((?:\\.|[^}\\])*)"
+        _regex_runtime_selftest([getattr(m, g) for g in regex_globals] +
                                 [rx for rx, _ in p0._special_char_patterns[:8]] +
-                                [re.compile(r"\{\\title\s+([^}]*)\}", re.I | re.S),
-                                 re.compile(r"\{\\[*]?\\?category\s+([^}]*)\}", re.I | re.S)])
+                                [re.compile(r"\{\\title\s+" + value + r"\}", re.I | re.S),
+                                 re.compile(r"\{\\[*]?\\?category\s+" + value + r"\}", re.I | re.S)])
+        L["chr"].target = chr
+        _code_page_selftest(m, L["_decode_hex_escape"], (p0._codec, "cp1250", "cp1251", "cp932", "latin-1"))
+        _RTF_LIFT.update(L)
+    L = _RTF_LIFT
     L["chr"].target = chr_model
     if L.get("combine"):
         # twin: without the repair step the query must find the surrogate again
         L["combine"].target = (lambda t: t) if ctx.perturb == "without_combine_surrogates" else _combine_surrogates_model
         ctx.shadows_used.add("rtf_extractor._combine_surrogates -> code-walking model (validated against the real function)")
+    ctx.shadows_used.add("rtf_extractor.bytes -> bytes([symbolic byte]).decode(codec) as the codec's own 256-entry "
+                         "table (read off the codec at run time)")
     p = object.__new__(m._RtfParser)
     p.data = b""
     p.pages = []
     p.metadata = m.RtfMetadata()
-    p._is_skip_destination = lambda ahead: L["_is_skip_destination"](p, ahead)
-    p._remove_ignorable_groups = lambda t: L["_remove_ignorable_groups"](p, t)
-    p._strip_rtf_full_with_pages = lambda t: L["_strip_rtf_full_with_pages"](p, t)
-    p._strip_rtf_simple = lambda t: L["_strip_rtf_simple"](p, t)
-    p._extract_metadata = lambda t: L["_extract_metadata"](p, t)
+    p._codec = L["codec"]                      # what __init__ sets; _detect_code_page may replace it
+
+    def bind(name):
+        fn = L[name]
+        return lambda *a, **k: fn(p, *a, **k)
+    for name in _RTF_LIFTED:
+        setattr(p, name, bind(name))
     p._special_char_patterns = L["special"]
     ctx.hash_universe = set(m._RtfParser.SPECIAL_CHARS)
     return p
@@ -1484,7 +1593,6 @@ def _k2_targets():
 
 F_XLSX_SUBJECT = "C04-xlsx-subject-not-reported"
 F_ODF_KEYWORDS = "C04-odf-only-first-keyword-reported"
-F_EPUB_REPEATED = "C04-epub-only-first-of-repeated-dc-element-reported"
 
 _PROPS = ("title", "author", "subject", "keywords", "description")
 # attribute of the metadata object that may carry a property (either name is accepted)
@@ -1574,6 +1682,23 @@ def _odf_lifted_reader():
     return _ODF_LIFT["fn"]
 
 
+def _join_fstr(*parts):
+    """f-string of lifted code whose pieces are all concrete: a real str (ElementTree paths)"""
+    if any(isinstance(x, S.CharStr) and x.concrete() is None for x in parts):
+        from vf import lift
+        return lift._csf(*parts)
+    return _JoinStr("".join(str(x) for x in parts))
+
+
+def _epub_lifted_reader():
+    import importlib
+    from vf import lift
+    if "epub" not in _ODF_LIFT:
+        m = importlib.import_module("sharepoint2text.parsing.extractors.epub_extractor")
+        _ODF_LIFT["epub"] = lift.lift(m._EpubContext._parse_metadata, _CS=_JoinStr, _CSF=_join_fstr)
+    return _ODF_LIFT["epub"]
+
+
 def _k4_run_xml(ctx, fmt, root):
     """hand the (parsed) properties part to the format's own reader"""
     import importlib
@@ -1593,23 +1718,18 @@ def _k4_run_xml(ctx, fmt, root):
         c = object.__new__(m._EpubContext)
         c._opf_root = root
         c._metadata = m.EpubMetadata()
-        c._parse_metadata()
+        if ctx.concrete:
+            c._parse_metadata()
+        else:
+            # symbolic run: the reader's own source lifted (", ".join of symbolic element texts)
+            _epub_lifted_reader()(c)
         return c._metadata
     raise KeyError(fmt)
 
 
-def _k4_xlsx_props(ctx, values):
-    """what openpyxl hands over as workbook.properties for a core-properties part"""
-    import xml.etree.ElementTree as ET
-    if ctx.concrete:
-        from openpyxl.packaging.core import DocumentProperties
-        from openpyxl.xml.functions import fromstring
-        spec = _XML_FORMATS["xlsx"]
-        root = ET.Element(spec["container"][0])
-        for prop, vals in values.items():
-            for v in vals:
-                ET.SubElement(root, spec["elements"][prop]).text = v
-        return DocumentProperties.from_tree(fromstring(ET.tostring(root)))
+def _k4_xlsx_props(values):
+    """what openpyxl hands over as workbook.properties for a core-properties part (symbolic run; the
+    concrete run reads the written package with read_xlsx, i.e. through openpyxl itself)"""
     one = lambda p: (values[p][0] if values[p] and len(values[p][0]) else None)
     return types.SimpleNamespace(title=one("title"), creator=one("author"), subject=one("subject"),
                                  keywords=one("keywords"), description=one("description"),
@@ -1657,6 +1777,24 @@ def _zip(files):
     return b
 
 
+def _xlsx_package(part):
+    """a one-sheet workbook package (ECMA-376 part 1, 18.2 / part 2) around a core-properties part"""
+    X = "http://schemas.openxmlformats.org/spreadsheetml/2006/main"
+    return _zip([("[Content_Types].xml", _CT % (
+        '<Override PartName="/xl/workbook.xml" ContentType="application/vnd.openxmlformats-officedocument.'
+        'spreadsheetml.sheet.main+xml"/><Override PartName="/xl/worksheets/sheet1.xml" ContentType='
+        '"application/vnd.openxmlformats-officedocument.spreadsheetml.worksheet+xml"/><Override PartName='
+        '"/docProps/core.xml" ContentType="application/vnd.openxmlformats-package.core-properties+xml"/>')),
+        ("_rels/.rels", _RELS % (_REL % ("rId1", _OD + "/officeDocument", "xl/workbook.xml") +
+                                 _REL % ("rId2", _CORE_REL, "docProps/core.xml"))),
+        ("xl/workbook.xml", f'<workbook xmlns="{X}" xmlns:r="{_OD}"><sheets><sheet name="S" sheetId="1" '
+                            'r:id="rId1"/></sheets></workbook>'),
+        ("xl/_rels/workbook.xml.rels", _RELS % (_REL % ("rId1", _OD + "/worksheet", "worksheets/sheet1.xml"))),
+        ("xl/worksheets/sheet1.xml", f'<worksheet xmlns="{X}"><sheetData><row r="1"><c r="A1" t="inlineStr"><is>'
+                                     "<t>x</t></is></c></row></sheetData></worksheet>"),
+        ("docProps/core.xml", part)])
+
+
 def _k4_public(ctx, fmt, part):
     """(reader name, metadata object) from the public reader on a minimal container holding the
     properties part; None when this format has no writer here"""
@@ -1688,6 +1826,9 @@ def _k4_public(ctx, fmt, part):
             ("ppt/slides/slide1.xml", f'<p:sld xmlns:p="{P}"><p:cSld><p:spTree/></p:cSld></p:sld>'),
             ("docProps/core.xml", part)])
         reader = importlib.import_module(ex + "ms_modern.pptx_extractor").read_pptx
+    elif fmt == "xlsx":
+        f = _xlsx_package(part)
+        reader = importlib.import_module(ex + "ms_modern.xlsx_extractor").read_xlsx
     elif fmt == "odf":
         kind = _ODF_KINDS.get(ctx.params.get("odf_module", "odt_extractor"))
         if kind is None:
@@ -1729,8 +1870,6 @@ def k4_xml_properties(ctx):
     focus = props[ctx.choice("focus", len(props))]
     states = ["absent", "empty", "text"] + (["repeated"] if focus in spec["repeatable"] else [])
     state = states[ctx.choice("state", len(states))]
-    if state == "repeated" and fmt == "epub" and _known(ctx, F_EPUB_REPEATED):
-        ctx.assume(False)
     values = {p: [_FIXED[p]] for p in props}
     if state == "absent":
         values[focus] = []
@@ -1741,48 +1880,48 @@ def k4_xml_properties(ctx):
         values[focus] = [_k4_text(ctx, "text", n)]
     else:
         values[focus] = [_k4_text(ctx, "first", 2), _k4_text(ctx, "second", 2)]
-    if fmt == "xlsx":
-        import importlib
-        m = importlib.import_module("sharepoint2text.parsing.extractors.ms_modern.xlsx_extractor")
-        wb = types.SimpleNamespace(properties=_k4_xlsx_props(ctx, values))
-        try:
-            md = m._extract_metadata_from_workbook(wb)
-        except S.Unsupported:
-            raise
-        except Exception as e:
-            ctx.fail("metadata-reader-raised", fmt=fmt, exc=type(e).__name__, msg=str(e)[:80])
-            return
-    else:
-        root = ET.Element(spec["container"][0])
-        if fmt == "epub":
-            root.set("version", "3.0")
-        holder = root
-        for tag in spec["container"][1:]:
-            holder = ET.SubElement(holder, tag)
-        for p in props:
-            for v in values[p]:
-                ET.SubElement(holder, spec["elements"][p]).text = v
-        if fmt == "epub":
-            # a package document also needs manifest and spine to be read as a book
-            man = ET.SubElement(root, f"{{{_NS_OPF}}}manifest")
-            ET.SubElement(man, f"{{{_NS_OPF}}}item", {"id": "c1", "href": "c1.xhtml", "media-type": "application/xhtml+xml"})
-            ET.SubElement(ET.SubElement(root, f"{{{_NS_OPF}}}spine"), f"{{{_NS_OPF}}}itemref", {"idref": "c1"})
-        try:
-            md = None
-            if ctx.concrete:
-                # the written part inside a minimal container, through the public reader
-                pub = _k4_public(ctx, fmt, ET.tostring(root, encoding="unicode"))
-                if pub is not None:
-                    md = pub[1]
-                else:
-                    root = ET.fromstring(ET.tostring(root, encoding="unicode"))
-            if md is None:
-                md = _k4_run_xml(ctx, fmt, root)
-        except S.Unsupported:
-            raise
-        except Exception as e:
-            ctx.fail("metadata-reader-raised", fmt=fmt, exc=type(e).__name__, msg=str(e)[:80])
-            return
+    root = ET.Element(spec["container"][0])
+    if fmt == "epub":
+        root.set("version", "3.0")
+    holder = root
+    for tag in spec["container"][1:]:
+        holder = ET.SubElement(holder, tag)
+    for p in props:
+        for v in values[p]:
+            ET.SubElement(holder, spec["elements"][p]).text = v
+    if fmt == "epub":
+        # a package document also needs manifest and spine to be read as a book
+        man = ET.SubElement(root, f"{{{_NS_OPF}}}manifest")
+        ET.SubElement(man, f"{{{_NS_OPF}}}item", {"id": "c1", "href": "c1.xhtml", "media-type": "application/xhtml+xml"})
+        ET.SubElement(ET.SubElement(root, f"{{{_NS_OPF}}}spine"), f"{{{_NS_OPF}}}itemref", {"idref": "c1"})
+    try:
+        md = None
+        if ctx.concrete:
+            # the written part inside a minimal container, through the public reader
+            pub = _k4_public(ctx, fmt, ET.tostring(root, encoding="unicode"))
+            if pub is not None:
+                md = pub[1]
+            else:
+                root = ET.fromstring(ET.tostring(root, encoding="unicode"))
+        if md is None and fmt == "xlsx":
+            # symbolic run: the reader proper on what openpyxl hands over; its two flags are derived
+            # the way read_xlsx derives them, from the package (the part with the symbolic characters
+            # replaced by a placeholder: the flags depend on the dcterms elements only)
+            import importlib
+            m = importlib.import_module("sharepoint2text.parsing.extractors.ms_modern.xlsx_extractor")
+            for el in root.iter():
+                if isinstance(el.text, S.CharStr):
+                    el.text = "x" * len(el.text)
+            has_created, has_modified = m._core_dates_present(_xlsx_package(ET.tostring(root, encoding="unicode")))
+            wb = types.SimpleNamespace(properties=_k4_xlsx_props(values))
+            md = m._extract_metadata_from_workbook(wb, has_created, has_modified)
+        if md is None:
+            md = _k4_run_xml(ctx, fmt, root)
+    except S.Unsupported:
+        raise
+    except Exception as e:
+        ctx.fail("metadata-reader-raised", fmt=fmt, exc=type(e).__name__, msg=str(e)[:80])
+        return
     for p in props:
         has, rep = _k4_reported(md, p)
         if not has:
@@ -1801,6 +1940,18 @@ def k4_xml_properties(ctx):
             for v in stored[1:]:
                 joined = joined + ", " + v
             _k4_compare(ctx, rep, joined, True, "repeated-property-value-not-reported", fmt=fmt, prop=p)
+        elif fmt == "epub":
+            # one dc:creator / dc:subject element per value: every non-blank value (white space trimmed,
+            # EPUB 3.3), in document order; the accepted rendering separates them by ", "
+            joined = None
+            for v in stored:
+                v = _strip_sp(v)
+                if len(v) == 0:
+                    continue
+                joined = v if joined is None else joined + ", " + v
+            _k4_compare(ctx, rep, joined if joined is not None else "", False,
+                        "repeated-property-value-not-reported", fmt=fmt, prop=p,
+                        values=[_show(x) for x in stored])
         else:
             # several values stored: each of them has to be found in what is reported
             ctx.require(_is_text(rep), "property-not-text", prop=p)
@@ -1967,10 +2118,6 @@ def k4_html_properties(ctx):
 # K4 / RTF
 # ---------------------------------------------------------------------------------------
 
-F_RTF_INFO_UNICODE = "C04-rtf-info-unicode-escape-dropped"
-F_RTF_INFO_CP1252 = "C04-rtf-info-hex-escape-read-as-latin1"
-F_RTF_INFO_ESCAPED = "C04-rtf-info-escaped-brace-or-backslash"
-
 # Windows-1252, bytes 0x80..0x9F (the rest of the code page equals ISO 8859-1); None = undefined
 _CP1252_HIGH = [0x20AC, None, 0x201A, 0x0192, 0x201E, 0x2026, 0x2020, 0x2021, 0x02C6, 0x2030, 0x0160, 0x2039,
                 0x0152, None, 0x017D, None, None, 0x2018, 0x2019, 0x201C, 0x201D, 0x2022, 0x2013, 0x2014,
@@ -1979,11 +2126,13 @@ _RTF_KEYWORD = {"title": "title", "author": "author", "subject": "subject", "key
                 "description": "doccomm"}        # RTF 1.9.1, information group
 _RTF_ATTR = {"title": "title", "author": "author", "subject": "subject", "keywords": "keywords",
              "description": "doc_comment"}
-_WS_CODES = (9, 10, 11, 12, 13, 28, 29, 30, 31, 32, 0x85, 0xA0)
+# white space as str.strip() understands it (U+0009..U+000D, U+001C..U+0020, U+0085, U+00A0, U+1680,
+# U+2000..U+200A, U+2028, U+2029, U+202F, U+205F, U+3000)
+_WS_CODES = tuple(c for c in range(0x110000) if chr(c).isspace())
 
 
 def _strip_ws(x):
-    """leading / trailing white space removed, on code lists (white space below U+0100 as str.strip)"""
+    """leading / trailing white space removed, on code lists (white space as str.strip)"""
     if x is None:
         return ""
     cs = _codes(x)
@@ -2021,18 +2170,11 @@ def k4_rtf_properties(ctx):
     focus = props[ctx.choice("focus", len(props))]
     K = 1 + ctx.choice("n_lexemes", ctx.params.get("max_lexemes", 2))
     kinds = ["plain", "hex", "unicode", "escaped"]
-    excluded = set()
-    if _known(ctx, F_RTF_INFO_UNICODE):
-        excluded.add("unicode")
-    if _known(ctx, F_RTF_INFO_ESCAPED):
-        excluded.add("escaped")
     src = "" if ctx.concrete else S.CharStr("")
     expected = []              # code points (python int / z3 term)
     free = []                  # indices in `expected` left unconstrained (undefined code page bytes)
     for i in range(K):
         kind = kinds[ctx.choice(f"kind{i}", len(kinds))]
-        if kind in excluded:
-            ctx.assume(False)
         if kind == "plain":
             t = ctx.fresh_chars(f"plain{i}", 1, 32, 126)
             if ctx.concrete:
@@ -2047,10 +2189,6 @@ def k4_rtf_properties(ctx):
             byte = v1 * 16 + v2
             if ctx.concrete:
                 ctx.assume(byte >= 32)
-                if _known(ctx, F_RTF_INFO_CP1252):
-                    ctx.assume(not (0x80 <= byte <= 0x9F))
-                if _known(ctx, F_RTF_INFO_ESCAPED):
-                    ctx.assume(byte not in (0x5C, 0x7B, 0x7D))
                 cp = byte if not (0x80 <= byte <= 0x9F) else _CP1252_HIGH[byte - 0x80]
                 if cp is None:
                     free.append(len(expected))
@@ -2058,10 +2196,6 @@ def k4_rtf_properties(ctx):
                 expected.append(cp)
             else:
                 ctx.assume(byte.z >= 32)
-                if _known(ctx, F_RTF_INFO_CP1252):
-                    ctx.assume(z3.Not(z3.And(byte.z >= 0x80, byte.z <= 0x9F)))
-                if _known(ctx, F_RTF_INFO_ESCAPED):
-                    ctx.assume(z3.And(byte.z != 0x5C, byte.z != 0x7B, byte.z != 0x7D))
                 # undefined bytes of the code page: nothing is demanded (path aborted for simplicity)
                 ctx.assume(z3.And(*[byte.z != 0x80 + k for k, v in enumerate(_CP1252_HIGH) if v is None]))
                 cp = byte.z
@@ -2104,6 +2238,7 @@ def k4_rtf_properties(ctx):
             md = res[0].get_metadata()
         else:
             p = _rtf_lifted_parser(ctx, _ChrModel(ctx, False))
+            p._detect_code_page(text)          # as parse() does before it reads the information group
             p._extract_metadata(text)
             md = p.metadata
     except S.Unsupported:
